@@ -1,5 +1,5 @@
 import Ebu.Spec.Flow
-import Ebu.Props.C03
+import Ebu.Props.C03Facts
 import Ebu.Proofs.PersistConc
 import Ebu.Spec.Bus
 import Ebu.Proofs.BusPersist
